@@ -4,9 +4,12 @@ exact recovery of a Basquin line, maximum likelihood not worse than its start.
 Theorems about `Model/WoehlerAnalysis.lean` at ℝ; the proofs are in `Proofs/Lemmas/Woehler*.lean`.
 
 `Q` (scipy's `norm.ppf`) and `Φ` (`norm.cdf`) are ARBITRARY functions ℝ → ℝ here: nothing about them is needed.
-`opt` (scipy's `optimize.fmin`) is an ARBITRARY function of the objective in the maximum-likelihood pipelines
-`maxLikeInf` / `maxLikeFull`: their equivariance holds for every optimiser, because the objective the code hands over
-(in parameters relative to the start values) is the same function for the transformed data set.
+`opt` (scipy's `optimize.fmin`) is an ARBITRARY function in the maximum-likelihood pipelines: for `maxLikeInf` a function
+of the objective alone (the start is always `(1, 1)`), for `maxLikeFull` a function of the objective AND of the start vector
+(`fullStart`: 1 per parameter, 0 where the elementary start value is 0 - /repo d747c6e, scaling `relScale`).  Their
+equivariance holds for every optimiser, because the objective the code hands over (in parameters relative to the start
+values) and the start vector are the same for the transformed data set.  `ml_not_worse_than_start_partial` assumes one
+contract per pipeline: `NeverWorseThanStart (1, 1)` and `NeverWorseThanItsStart`.
 Admissible data: positive loads / cycles; `c > 0`.
 -/
 import Proofs.Lemmas.WoehlerBasics
